@@ -138,6 +138,13 @@ def process_graphql_query(
                 runtime=runtime,
             ),
             _on_end,
+            # Deferred runtimes surface this when the wrapped result settles,
+            # the blocking runtime raises it right here (see below): same
+            # response either way.
+            else_=(
+                ExecutionError,
+                lambda err: _on_end(GraphQLResult(data=None, errors=[err])),
+            ),
         )
     except VariablesCoercionError as err:
         return _abort(data=None, errors=err.errors)
